@@ -8,9 +8,9 @@ Known2 == {"C16-2"}
 KnownNone == {}
 
 \* family S (supply and capacity): deposits near the capacity, a transfer chain, a withdrawal
-TxS == {"D1", "D2", "D3", "D5", "D6", "T1", "TD", "W1"}
+TxS == {"D1", "D2", "D3", "D5", "D6", "T1", "TD", "W1", "WX"}
 \* family R (references, competing spenders, second and third asset)
-TxR == {"D1", "D3", "D4", "T1", "T2", "T3", "TI", "W1", "X1", "K1", "K2"}
+TxR == {"D1", "D3", "D4", "T1", "T2", "T3", "TI", "W1", "WY", "X1", "K1", "K2"}
 DefOf(S) == [t \in S |-> TxDefU[t]]
 TxDefS == DefOf(TxS)
 TxDefR == DefOf(TxR)
